@@ -1,4 +1,4 @@
-import MontePyVerif.Lemmas.GeometryPrint
+import MontePyVerif.Lemmas.GeometryUpdate
 /-! # C02 — a cell's geometry keeps its Boolean meaning through read, edit and write
 
 Spec: `Spec/Geometry.lean` (`denote`: one-pass lexer + stack evaluator, MCNP's rules).
@@ -28,8 +28,9 @@ theorem holds_compl {l : HS} {g : GN} (ih : Holds l)
       | [] => [])
     (ho : orderOK g [.operator, .left] = true) (hopr : complOpr g.opr.format = true)
     (hhp : headParens g.lchain = true) (hck : chainOK g.lchain l.fmt = true)
-    (hep : isSep (cmtAfter false (wrapFmt g.lchain l.fmt)) (optFmt g.ep) = true) :
+    (hep0 : isSep false (optFmt g.ep) = true) :
     Holds (.compl l (some g)) := by
+  have hep := isSep_of_false (cmtAfter false (wrapFmt g.lchain l.fmt)) hep0
   obtain ⟨S, hS, hsep, hclosed⟩ := complOpr_shape hopr
   obtain ⟨_, hpar⟩ := link_good ih.1 hck
   obtain ⟨R, tsR, hw, hk, hR⟩ := hpar hhp
@@ -62,27 +63,27 @@ theorem eval_unit_eq (a s : Bool) : (a != !s) = (a == s) := by cases a <;> cases
 theorem ready_holds (h : HS) (hr : ready h = true) : Holds h := by
   induction h with
   | unit d s c n =>
-    cases c <;> cases n <;> simp [ready] at hr
+    cases c <;> cases n <;> simp [ready, gen] at hr
     rename_i v
     have hsem : L1 (toks (.unit d s false (some v))) (fun ρ => (HS.unit d s false (some v)).eval ρ) :=
       (L1_num d (!s)).congr (fun ρ => by simp only [HS.eval]; cases ρ false d <;> cases s <;> rfl)
     exact ⟨by simpa [HS.fmt, toks] using good_leaf hr.1 hr.2, hsem.toL0, fun _ => hsem⟩
   | compl l n ih =>
     cases n with
-    | none => simp [ready] at hr
+    | none => simp [ready, gen] at hr
     | some g =>
       cases l with
       | unit d s c vn =>
         cases c
         · -- complement of a surface leaf: `#( n )`
-          simp only [ready, Bool.and_eq_true] at hr
+          simp only [ready, gen, Bool.and_eq_true] at hr
           obtain ⟨⟨⟨⟨⟨hl, ho⟩, hopr⟩, hhp⟩, hck⟩, hep⟩ := hr
-          exact holds_compl (ih hl) (by cases hcc : g.lchain <;> simp [toks, hcc]) ho hopr hhp hck hep
+          exact holds_compl (ih (by simpa [ready] using hl)) (by cases hcc : g.lchain <;> simp [toks, hcc]) ho hopr hhp hck hep
         · cases vn with
-          | none => simp [ready] at hr
+          | none => simp [ready, gen] at hr
           | some v =>
             -- `#n`
-            simp only [ready, Bool.and_eq_true, beq_iff_eq] at hr
+            simp only [ready, gen, Bool.and_eq_true, beq_iff_eq] at hr
             obtain ⟨⟨⟨⟨⟨ho, hopr⟩, hbare⟩, hcv⟩, hpad⟩, hep⟩ := hr
             obtain ⟨S, hS, hsep, hclosed⟩ := complOpr_shape hopr
             have hsem : L1 (toks (.compl (.unit d s true (some v)) (some g)))
@@ -90,23 +91,23 @@ theorem ready_holds (h : HS) (hr : ready h = true) : Holds h := by
               (L1_cell d).congr (fun ρ => by simp [HS.eval])
             refine ⟨?_, hsem.toL0, fun _ => hsem⟩
             rw [fmt_compl ho, wrapFmt_allBare hbare, hS]
-            simpa [HS.fmt, toks] using good_cell hsep hclosed hcv hpad hep
+            simpa [HS.fmt, toks] using good_cell hsep hclosed hcv hpad (isSep_of_false _ hep)
       | compl l' n' =>
-        simp only [ready, Bool.and_eq_true] at hr
+        simp only [ready, gen, Bool.and_eq_true] at hr
         obtain ⟨⟨⟨⟨⟨hl, ho⟩, hopr⟩, hhp⟩, hck⟩, hep⟩ := hr
-        exact holds_compl (ih hl) (by cases hcc : g.lchain <;> simp [toks, hcc]) ho hopr hhp hck hep
+        exact holds_compl (ih (by simpa [ready] using hl)) (by cases hcc : g.lchain <;> simp [toks, hcc]) ho hopr hhp hck hep
       | bin o' l' r' n' =>
-        simp only [ready, Bool.and_eq_true] at hr
+        simp only [ready, gen, Bool.and_eq_true] at hr
         obtain ⟨⟨⟨⟨⟨hl, ho⟩, hopr⟩, hhp⟩, hck⟩, hep⟩ := hr
-        exact holds_compl (ih hl) (by cases hcc : g.lchain <;> simp [toks, hcc]) ho hopr hhp hck hep
+        exact holds_compl (ih (by simpa [ready] using hl)) (by cases hcc : g.lchain <;> simp [toks, hcc]) ho hopr hhp hck hep
   | bin o l r n ihl ihr =>
     cases n with
-    | none => simp [ready] at hr
+    | none => simp [ready, gen] at hr
     | some g =>
-      simp only [ready, Bool.and_eq_true, Bool.not_eq_true'] at hr
+      simp only [ready, gen, Bool.and_eq_true, Bool.not_eq_true'] at hr
       obtain ⟨⟨⟨⟨⟨⟨⟨hl, hrr⟩, ho⟩, hckl⟩, hckr⟩, hLc⟩, hop⟩, hep⟩ := hr
-      have hL := ihl hl
-      have hR := ihr hrr
+      have hL := ihl (by simpa [ready] using hl)
+      have hR := ihr (by simpa [ready] using hrr)
       obtain ⟨gL, hLp⟩ := link_good hL.1 hckl
       obtain ⟨gR, hRp⟩ := link_good hR.1 hckr
       cases o with
@@ -126,7 +127,7 @@ theorem ready_holds (h : HS) (hr : ready h = true) : Holds h := by
         refine ⟨?_, hsem.toL0, fun _ => hsem⟩
         rw [fmt_bin ho]
         simp only [toks]
-        refine good_inter gL hLc gR hsep hoc ?_ hep
+        refine good_inter gL hLc gR hsep hoc ?_ (isSep_of_false _ hep)
         rcases hsepar with (h | h) | h
         · left; intro e; simp [e] at h
         · right; left
@@ -144,7 +145,7 @@ theorem ready_holds (h : HS) (hr : ready h = true) : Holds h := by
         refine ⟨?_, hsem, fun hu => by simp [isUnion] at hu⟩
         rw [fmt_bin ho, hab]
         simp only [toks]
-        exact good_union gL hLc gR ha hac hb hbc hep
+        exact good_union gL hLc gR ha hac hb hbc (isSep_of_false _ hep)
 
 /-- **C02_write_meaning (central).** For every tree in the state `_update_values` establishes, whatever its size,
     user-supplied redundant parentheses, padding, comments and line breaks: the written text is well-formed MCNP
@@ -274,6 +275,184 @@ theorem C02_history_write (h : HS) (ops : List Op) (h' : HS)
     ∃ e, denote h'.fmt = some e ∧ ∀ ρ, e.eval ρ = ops.foldl (opSem ρ) (h.eval ρ) := by
   obtain ⟨e, he, hv⟩ := C02_write_meaning h' hr
   exact ⟨e, he, fun ρ => by rw [hv ρ, hsame ρ, C02_history]⟩
+
+/-! ## `_update_values` establishes `ready` (C02_update_ready): the theorems for well-formed trees *before* the update -/
+
+/-- **C02_update_ready.** From every well-formed tree (`wf` = DESIGN's `HS.WF`: nothing is asked of the links, nodes may
+    be missing) `HalfSpace._update_values` — `_ensure_has_nodes`, `_link_child`, `_end_trailing_comment`,
+    `_end_comments_in_parentheses`, then `_update_node` everywhere — establishes the state `ready`. -/
+theorem C02_update_ready (c : Nat) (h : HS) (hw : wf h = true) : ready (updateValues c h).1 = true :=
+  (update_ready _ (ensure_linked c h hw).1).1
+
+/-- `_update_values` does not change the region of the tree. -/
+theorem C02_update_meaning (c : Nat) (h : HS) (hw : wf h = true) (ρ : Env) :
+    (updateValues c h).1.eval ρ = h.eval ρ :=
+  ((update_ready _ (ensure_linked c h hw).1).2.2.trans (ensure_linked c h hw).2).ev ρ
+
+/-- **C02_write_meaning_wf (DESIGN's C02_write_meaning).** For every well-formed tree, whatever its size and
+    history: the text written after `_update_values` is well-formed MCNP geometry and denotes the Boolean function of
+    the tree the API exposed before the write. No hypothesis is left about the updated tree. -/
+theorem C02_write_meaning_wf (c : Nat) (h : HS) (hw : wf h = true) :
+    ∃ e, denote (updateValues c h).1.fmt = some e ∧ ∀ ρ, e.eval ρ = h.eval ρ := by
+  obtain ⟨e, he, hv⟩ := C02_write_meaning _ (C02_update_ready c h hw)
+  exact ⟨e, he, fun ρ => by rw [hv ρ, C02_update_meaning c h hw ρ]⟩
+
+/-- … and its text lexes to exactly its tokens (no fusion), for every well-formed tree. -/
+theorem C02_no_fusion_wf (c : Nat) (h : HS) (hw : wf h = true) :
+    lex (updateValues c h).1.fmt = some (toks (updateValues c h).1) :=
+  C02_no_fusion _ (C02_update_ready c h hw)
+
+theorem wf_not_cell {h : HS} (hw : wf h = true) : isCellUnit h = false := by
+  cases h with
+  | unit d s c n => cases c <;> simp_all [wf, isCellUnit]
+  | compl _ _ => rfl
+  | bin _ _ _ _ => rfl
+
+/-- a written tree is well-formed again: writes can be repeated and interleaved with edits -/
+theorem C02_ready_wf (h : HS) (hr : ready h = true) : wf h = true := by
+  induction h with
+  | unit d s c n => cases c <;> cases n <;> simp_all [ready, gen, wf]
+  | compl l n ih =>
+    cases n with
+    | none => simp [ready, gen] at hr
+    | some g =>
+      by_cases hcu : isCellUnit l = true
+      · cases l with
+        | unit d s c vn =>
+          cases c
+          · simp [isCellUnit] at hcu
+          · cases vn with
+            | none => simp [ready, gen] at hr
+            | some v =>
+              simp only [ready, gen, Bool.and_eq_true] at hr
+              simp only [wf, Bool.and_eq_true]
+              exact ⟨⟨hr.1.1.2, hr.1.2⟩, ⟨⟨⟨hr.1.1.1.1.1, hr.1.1.1.1.2⟩, hr.1.1.1.2⟩, hr.2⟩⟩
+        | compl _ _ => simp [isCellUnit] at hcu
+        | bin _ _ _ _ => simp [isCellUnit] at hcu
+      · have hcu' : isCellUnit l = false := by simpa using hcu
+        simp only [ready] at hr
+        rw [gen_compl_general hcu'] at hr
+        simp only [Bool.and_eq_true] at hr
+        rw [wf_compl_general hcu']
+        simp only [Bool.and_eq_true]
+        exact ⟨ih hr.1.1.1.1.1, ⟨⟨⟨hr.1.1.1.1.2, hr.1.1.1.2⟩, chainPads_of_chainOK hr.1.2⟩, hr.2⟩⟩
+  | bin o l r n ihl ihr =>
+    cases n with
+    | none => simp [ready, gen] at hr
+    | some g =>
+      simp only [ready, gen, Bool.and_eq_true, Bool.not_eq_true'] at hr
+      obtain ⟨⟨⟨⟨⟨⟨⟨hl, hrr⟩, ho⟩, hckl⟩, hckr⟩, _⟩, hop⟩, hep⟩ := hr
+      simp only [wf, Bool.and_eq_true]
+      refine ⟨⟨ihl hl, ihr hrr⟩, ⟨⟨⟨⟨ho, chainPads_of_chainOK hckl⟩, chainPads_of_chainOK hckr⟩, ?_⟩, hep⟩⟩
+      cases o with
+      | union => exact hop
+      | inter =>
+        simp only [Bool.and_eq_true, Bool.not_eq_true'] at hop
+        simp only [oprOK, Bool.and_eq_true, Bool.not_eq_true']
+        exact hop.1.1.1
+
+/-! the operators keep trees well-formed -/
+
+theorem wf_and {a b : HS} (ha : wf a = true) (hb : wf b = true) : wf (a.and b) = true := by
+  simp [HS.and, wf, ha, hb]
+theorem wf_or {a b : HS} (ha : wf a = true) (hb : wf b = true) : wf (a.or b) = true := by
+  simp [HS.or, wf, ha, hb]
+theorem wf_invert {a : HS} (ha : wf a = true) : wf a.invert = true := by
+  simp only [HS.invert]; rw [wf_compl_general (wf_not_cell ha)]; simp [ha]
+
+theorem wf_iand {a x : HS} (ha : wf a = true) (hx : wf x = true) : wf (a.iand x) = true := by
+  fun_induction HS.iand a x <;> simp_all [wf]
+
+theorem wf_ior {a x : HS} (ha : wf a = true) (hx : wf x = true) : wf (a.ior x) = true := by
+  fun_induction HS.ior a x <;> simp_all [wf]
+
+/-- the operand of an edit -/
+def Op.operand : Op → Option HS
+  | .and x => some x | .rand x => some x | .or x => some x | .ror x => some x
+  | .not => none | .iand x => some x | .ior x => some x
+
+theorem wf_applyOp {h : HS} {op : Op} (hh : wf h = true) (hx : ∀ x, op.operand = some x → wf x = true) :
+    wf (applyOp h op) = true := by
+  cases op with
+  | and x => exact wf_and hh (hx x rfl)
+  | rand x => exact wf_and (hx x rfl) hh
+  | or x => exact wf_or hh (hx x rfl)
+  | ror x => exact wf_or (hx x rfl) hh
+  | not => exact wf_invert hh
+  | iand x => exact wf_iand hh (hx x rfl)
+  | ior x => exact wf_ior hh (hx x rfl)
+
+/-- a step of a history of a cell's geometry: an edit with the Python operators, or a write -/
+inductive Step where
+  | edit (op : Op)
+  | write
+
+def Step.ok : Step → Prop
+  | .edit op => ∀ x, op.operand = some x → wf x = true
+  | .write => True
+
+/-- the tree (and the counter of fresh node ids) after a step: a write leaves the updated nodes on the tree -/
+def runStep (st : HS × Nat) : Step → HS × Nat
+  | .edit op => (applyOp st.1 op, st.2)
+  | .write => updateValues st.2 st.1
+
+def stepSem (ρ : Env) (b : Bool) : Step → Bool
+  | .edit op => opSem ρ b op
+  | .write => b
+
+/-- **C02_history_wf (DESIGN's C02_history).** Start from any well-formed tree (read, or built from scratch). After
+    *any* sequence of `&`, `|`, `~`, `&=`, `|=` (either operand order; operands any well-formed trees, built or read
+    from other cells) interleaved with *any* number of writes: the tree is well-formed, its region is the fold of the
+    Boolean operations over the operands' regions, and the text the next write produces denotes exactly that region. -/
+theorem C02_history_wf (h0 : HS) (c0 : Nat) (steps : List Step) (hw : wf h0 = true) (hs : ∀ s ∈ steps, s.ok) :
+    wf (steps.foldl runStep (h0, c0)).1 = true ∧
+    (∀ ρ, (steps.foldl runStep (h0, c0)).1.eval ρ = steps.foldl (stepSem ρ) (h0.eval ρ)) ∧
+    ∃ e, denote (updateValues (steps.foldl runStep (h0, c0)).2 (steps.foldl runStep (h0, c0)).1).1.fmt = some e ∧
+      ∀ ρ, e.eval ρ = steps.foldl (stepSem ρ) (h0.eval ρ) := by
+  have key : wf (steps.foldl runStep (h0, c0)).1 = true ∧
+      (∀ ρ, (steps.foldl runStep (h0, c0)).1.eval ρ = steps.foldl (stepSem ρ) (h0.eval ρ)) := by
+    induction steps generalizing h0 c0 with
+    | nil => exact ⟨hw, fun _ => rfl⟩
+    | cons s ss ih =>
+      have hs' : ∀ t ∈ ss, t.ok := fun t ht => hs t (List.mem_cons_of_mem _ ht)
+      have hs0 : s.ok := hs s (List.mem_cons_self ..)
+      cases s with
+      | edit op =>
+        obtain ⟨i1, i2⟩ := ih (applyOp h0 op) c0 (wf_applyOp hw hs0) hs'
+        exact ⟨i1, fun ρ => by rw [List.foldl_cons, List.foldl_cons, runStep, stepSem, ← applyOp_eval]; exact i2 ρ⟩
+      | write =>
+        obtain ⟨i1, i2⟩ := ih (updateValues c0 h0).1 (updateValues c0 h0).2
+          (C02_ready_wf _ (C02_update_ready c0 h0 hw)) hs'
+        exact ⟨i1, fun ρ => by
+          rw [List.foldl_cons, List.foldl_cons, runStep, stepSem, ← C02_update_meaning c0 h0 hw ρ]; exact i2 ρ⟩
+  obtain ⟨k1, k2⟩ := key
+  obtain ⟨e, he, hv⟩ := C02_write_meaning_wf (steps.foldl runStep (h0, c0)).2 _ k1
+  exact ⟨k1, k2, e, he, fun ρ => by rw [hv ρ, k2 ρ]⟩
+
+/-- **C02_cell_update.** The cell level: from a well-formed geometry and well-formed parentheses around it,
+    `Cell._update_values` leaves the cell's tree entry in the state `C02_cell_write_meaning` asks for; so the geometry
+    part of the written cell denotes the region of `cell.geometry`. -/
+theorem C02_cell_update (ctr : Nat) (c : CG) (hw : wf c.hs = true) (hp : chainPads c.chain = true) :
+    ∃ e, denote (c.update ctr).1.fmt = some e ∧ ∀ ρ, e.eval ρ = c.hs.eval ρ := by
+  have hr := C02_update_ready ctr c.hs hw
+  have hm := C02_update_meaning ctr c.hs hw
+  by_cases ht : c.target = (updateValues ctr c.hs).1.nodeId.getD 0
+  · obtain ⟨k1, k2⟩ := closeParens_spec true c.chain (updateValues ctr c.hs).1 hr hp
+    have hu : (c.update ctr).1 =
+        ⟨(closeParens c.chain (updateValues ctr c.hs).1).1, c.target, (closeParens c.chain (updateValues ctr c.hs).1).2⟩ := by
+      simp [CG.update, ht]
+    obtain ⟨e, he, hv⟩ := C02_cell_write_meaning
+      ⟨(closeParens c.chain (updateValues ctr c.hs).1).1, c.target, (closeParens c.chain (updateValues ctr c.hs).1).2⟩
+      k1.g k2
+    rw [hu]
+    exact ⟨e, he, fun ρ => by rw [hv ρ]; exact (k1.same.ev ρ).trans (hm ρ)⟩
+  · have hu : (c.update ctr).1 =
+        ⟨[], (updateValues ctr c.hs).1.nodeId.getD 0, (updateValues ctr c.hs).1⟩ := by
+      simp [CG.update, ht]
+    obtain ⟨e, he, hv⟩ := C02_cell_write_meaning
+      ⟨[], (updateValues ctr c.hs).1.nodeId.getD 0, (updateValues ctr c.hs).1⟩ hr rfl
+    rw [hu]
+    exact ⟨e, he, fun ρ => by rw [hv ρ]; exact hm ρ⟩
 
 /-! ## the constants of the source (generated: `Gen/Geometry.lean`, `Gen/Constants.lean`) -/
 
